@@ -86,7 +86,8 @@ def candidates_est(plan):
         if any(o["op"] in ("fit", "path") for o in p2["ops"]):
             yield "drop_op", p2
     for i, op in enumerate(ops):
-        if op.get("container", "F") != "F" and op["op"] in ("fit", "path"):
+        if op.get("container", "F") != "F" and op["op"] in ("fit", "path") \
+                and not any(o["op"] == "compare" for o in ops):
             p2 = copy.deepcopy(plan)
             p2["ops"][i]["container"] = "F"
             yield "container_F", p2
@@ -101,16 +102,27 @@ def candidates_est(plan):
                 yield "drop_alpha", p2
         if op["op"] == "new":
             a = op["args"]
+            # replicas that a `compare` operation pairs (C10) must keep identical constructor
+            # arguments: a change is applied to both or not at all
+            partners = {o["b"] if o["a"] == op["id"] else o["a"] for o in ops
+                        if o["op"] == "compare" and op["id"] in (o["a"], o["b"])}
+            twins = [j for j, o in enumerate(ops) if o["op"] == "new" and o["id"] in partners]
+            if twins and min(twins) < i:
+                continue            # handled from the first replica of the pair
             for name, simple in (("p0", 10), ("ws_strategy", "subdiff"), ("warm_start", False),
                                  ("positive", False)):
                 if name in a and a[name] != simple:
                     p2 = copy.deepcopy(plan)
-                    p2["ops"][i]["args"][name] = simple
+                    for j in [i] + twins:
+                        if name in p2["ops"][j]["args"]:
+                            p2["ops"][j]["args"][name] = simple
                     yield "arg_" + name, p2
             for name in ("max_iter", "max_epochs"):
                 if name in a and a[name] > 1:
                     p2 = copy.deepcopy(plan)
-                    p2["ops"][i]["args"][name] = int(a[name] // 2)
+                    for j in [i] + twins:
+                        if name in p2["ops"][j]["args"]:
+                            p2["ops"][j]["args"][name] = int(a[name] // 2)
                     yield "lower_" + name, p2
     used = {o["data"] for o in ops if "data" in o}
     for d in sorted(used):
